@@ -12,6 +12,7 @@ def run(ctx):
     progress.rule_ideal_early_exit(ctx)  # the ideal solver's enumeration stops only when the intersection is the grounded extension
     cli.rule_answer_after_solver(ctx)  # the command line prints the status the solver returned, after it returned
     accept.rule_delegation_pairs(ctx)
+    provenance.rule_encoded_framework_is_searched(ctx, 'credulous')
     accept.rule_plain_status_follows_model(ctx, 'credulous')
     cli.rule_dispatch(ctx, 'credulous')
     accept.rule_membership_answers(ctx, 'credulous')
